@@ -34,3 +34,5 @@ def check(repo, rep, tier):
     from .. import rules_compile as rc
     from .. import rules_clause as rcl
     rep.run(rcl.rule_calls_late_bound, rc.CompilerModel(repo), rep, 'C09.M8')
+    from .. import rules_bind as rb
+    rep.run(rb.rule_arity_guard, em, rep, 'C09.M9')
